@@ -41,6 +41,35 @@ PARTS = [
     ("arm", "src/collections/raw_vec.rs", "reserve_internal", "strategy", "Exact", "reserve_new_cap_exact"),
     ("arm", "src/collections/raw_vec.rs", "reserve_internal", "strategy", "Amortized", "reserve_new_cap_amortized"),
 ]
+# expressions inside the functions that move the finger or copy bytes (they call other methods and
+# write memory, so they are not translated as wholes): each is translated together with the `let`s
+# in scope that it refers to.
+#   ("expr", file, fn, locator, new name) with locator one of
+#     ("let", name, k)            right-hand side of the k-th `let name = ..` of the body
+#     ("if", k)                   condition of the k-th `if` of the body (in order of appearance)
+#     ("arg", callee, k, i)       i-th argument of the k-th call of `callee`
+EXPRS = [
+    ("src/lib.rs", "is_last_allocation"),
+    ("src/lib.rs", "layout_from_size_align"),
+    ("src/lib.rs", "round_mut_ptr_up_to_unchecked"),
+    ("expr", "src/lib.rs", "dealloc", ("if", 1), "dealloc_cond"),
+    ("expr", "src/lib.rs", "dealloc", ("let", "ptr", 3), "dealloc_new_finger"),
+    ("expr", "src/lib.rs", "shrink", ("if", 1), "shrink_align_raised"),
+    ("expr", "src/lib.rs", "shrink", ("if", 2), "shrink_lucky"),
+    ("expr", "src/lib.rs", "shrink", ("arg", "copy_nonoverlapping", 1, 2), "shrink_fresh_copy_len"),
+    ("expr", "src/lib.rs", "shrink", ("let", "delta", 1), "shrink_delta"),
+    ("expr", "src/lib.rs", "shrink", ("if", 3), "shrink_in_place_cond"),
+    ("expr", "src/lib.rs", "shrink", ("let", "new_ptr", 2), "shrink_new_finger"),
+    ("expr", "src/lib.rs", "shrink", ("arg", "copy_nonoverlapping", 2, 2), "shrink_in_place_copy_len"),
+    ("expr", "src/lib.rs", "grow", ("let", "new_size", 2), "grow_rounded_size"),
+    ("expr", "src/lib.rs", "grow", ("if", 1), "grow_in_place_cond"),
+    ("expr", "src/lib.rs", "grow", ("let", "delta", 1), "grow_delta"),
+    ("expr", "src/lib.rs", "grow", ("arg", "try_alloc_layout_fast", 1, 0), "grow_extra_layout"),
+    ("expr", "src/lib.rs", "grow", ("arg", "copy", 1, 2), "grow_in_place_copy_len"),
+    ("expr", "src/lib.rs", "grow", ("arg", "copy_nonoverlapping", 1, 2), "grow_fresh_copy_len"),
+]
+# methods of `self` that are functions of the table when called with one argument
+SELF_FNS = {"is_last_allocation"}
 CONST_FILE = "src/lib.rs"
 
 
@@ -357,6 +386,8 @@ class Parser:
                     a = self.args()
                     if len(a) == 0:
                         e = "(EMeth0 %s %s)" % (e, q(m))
+                    elif len(a) == 1 and e == '(EVar "self")' and m in SELF_FNS:
+                        e = "(ECall1 %s %s)" % (q(m), a[0])
                     elif len(a) == 1:
                         e = "(EMeth1 %s %s %s)" % (e, q(m), a[0])
                     elif len(a) == 2 and e == '(EVar "self")':
@@ -598,6 +629,130 @@ def fix_path_vars(term):
     return re.sub(r'\(EMeth1 (.*?) "unwrap_or_else" \(EVar ("[a-z_]+")\)\)', r'(EMeth1 \1 "unwrap_or_else" (EPath \2))', term)
 
 
+def scan_body(toks):
+    """lets, ifs and calls of a function body with their block paths (tuples of `{` indices)"""
+    vals = [t[1] for t in toks]
+    stack = []
+    lets, ifs, calls = [], [], []
+    i = 0
+    while i < len(vals):
+        v = vals[i]
+        if v == "{":
+            stack.append(i)
+        elif v == "}":
+            stack.pop()
+        elif v == "let" and not (i + 1 < len(vals) and vals[i + 1] in ("Some", "Ok", "(")):
+            j = i + 1
+            if vals[j] == "mut":
+                j += 1
+            name = vals[j]
+            if toks[j][0] == "id" and vals[j + 1] in ("=", ":"):
+                k = j + 1
+                depth = 0
+                while not (vals[k] == "=" and depth == 0):
+                    if vals[k] in "<([":
+                        depth += 1
+                    elif vals[k] in ">)]":
+                        depth -= 1
+                    k += 1
+                start = k + 1
+                depth = 0
+                e = start
+                while not (vals[e] == ";" and depth == 0):
+                    if vals[e] in "({[":
+                        depth += 1
+                    elif vals[e] in ")}]":
+                        depth -= 1
+                    e += 1
+                lets.append({"at": i, "name": name, "start": start, "end": e, "path": tuple(stack)})
+        elif v == "if" and not (i + 1 < len(vals) and vals[i + 1] == "let"):
+            ifs.append({"at": i, "start": i + 1, "path": tuple(stack)})
+        elif toks[i][0] == "id" and i + 1 < len(vals) and vals[i + 1] == "(" and (i == 0 or vals[i - 1] != "fn"):
+            calls.append({"at": i, "name": v, "open": i + 1, "path": tuple(stack)})
+        i += 1
+    return lets, ifs, calls
+
+
+def extract_expr(toks, locator):
+    """(term, position) of the located expression, wrapped in the `let`s in scope it depends on"""
+    lets, ifs, calls = scan_body(toks)
+    vals = [t[1] for t in toks]
+    if locator[0] == "let":
+        cands = [l for l in lets if l["name"] == locator[1]]
+        if len(cands) < locator[2]:
+            raise Unsupported("let %s #%d not found" % (locator[1], locator[2]))
+        tgt = cands[locator[2] - 1]
+        p = Parser(toks)
+        p.i = tgt["start"]
+        term = p.expr()
+        if p.i != tgt["end"]:
+            raise Unsupported("let right-hand side not fully parsed")
+        pos, path, used = tgt["at"], tgt["path"], set(vals[tgt["start"]:tgt["end"]])
+    elif locator[0] == "if":
+        if len(ifs) < locator[1]:
+            raise Unsupported("if #%d not found" % locator[1])
+        tgt = ifs[locator[1] - 1]
+        p = Parser(toks)
+        p.i = tgt["start"]
+        term = p.expr(no_struct=True)
+        if p.peek() != "{":
+            raise Unsupported("condition not followed by a block")
+        pos, path, used = tgt["at"], tgt["path"], set(vals[tgt["start"]:p.i])
+    else:
+        _, callee, k, argi = locator
+        cands = [c for c in calls if c["name"] == callee]
+        if len(cands) < k:
+            raise Unsupported("call %s #%d not found" % (callee, k))
+        tgt = cands[k - 1]
+        # token spans of the arguments: split at top-level commas
+        spans = []
+        j = tgt["open"] + 1
+        depth = 0
+        a0 = j
+        while True:
+            v = vals[j]
+            if v in "({[":
+                depth += 1
+            elif v in ")}]":
+                if depth == 0:
+                    if j > a0:
+                        spans.append((a0, j))
+                    break
+                depth -= 1
+            elif v == "," and depth == 0:
+                spans.append((a0, j))
+                a0 = j + 1
+            j += 1
+        if argi >= len(spans):
+            raise Unsupported("argument index")
+        p = Parser(toks)
+        p.i = spans[argi][0]
+        term = p.expr()
+        if p.i != spans[argi][1]:
+            raise Unsupported("argument not fully parsed")
+        pos, path, used = tgt["at"], tgt["path"], set(vals[spans[argi][0]:spans[argi][1]])
+    # wrap the lets in scope (enclosing blocks) that the expression refers to: going backwards, a
+    # binding is needed if its name is referred to by what follows and not yet bound by a later let
+    needed = set(used)
+    wrapped = []
+    for l in reversed([l for l in lets if l["at"] < pos and path[:len(l["path"])] == l["path"]]):
+        if l["name"] in needed:
+            try:
+                p = Parser(toks)
+                p.i = l["start"]
+                rhs = p.expr()
+                if p.i != l["end"]:
+                    raise Unsupported("let right-hand side not fully parsed")
+            except (Unsupported, ValueError, IndexError):
+                continue
+            needed.discard(l["name"])
+            needed |= set(vals[l["start"]:l["end"]])
+            wrapped.append((l["name"], rhs, True, l))
+    for name, rhs, _, l in wrapped:
+        term = "(ELet %s %s %s)" % (q(name), rhs, term)
+    return term
+
+
 def translate(repo):
     notes = []
     fns = []
@@ -683,6 +838,33 @@ def translate(repo):
                     raise Unsupported("arm %s of match %s not found" % (variant, scrut))
             term = fix_path_vars(term)
             fns.append((newname, param_names(params), term))
+        except (Unsupported, ValueError, IndexError) as e:
+            notes.append("%s: NOT TRANSLATED (%s)" % (newname, e))
+    for part in EXPRS:
+        if part[0] != "expr":
+            path, fname = part
+            newname, locator = fname, None
+        else:
+            _, path, fname, locator, newname = part
+        if path not in cache:
+            try:
+                cache[path] = strip_comments(open(os.path.join(repo, path)).read())
+            except OSError:
+                cache[path] = ""
+        try:
+            found = find_fn(cache[path], fname)
+            if not found:
+                raise Unsupported("function not found")
+            params, body = found
+            toks = tokenize(body)
+            if locator is None:
+                p = Parser(toks)
+                term = p.block()
+                if p.i != len(p.t):
+                    raise Unsupported("trailing tokens")
+            else:
+                term = extract_expr(toks, locator)
+            fns.append((newname, param_names(params), fix_path_vars(term)))
         except (Unsupported, ValueError, IndexError) as e:
             notes.append("%s: NOT TRANSLATED (%s)" % (newname, e))
     consts = []
